@@ -2,7 +2,7 @@
 from typing import Optional
 
 from metapype.model.node import Node
-from harness.hlib import SHAPES, build, nodes, snap, snap_links, count, part, bound
+from harness.hlib import fresh, SHAPES, build, nodes, snap, snap_links, count, part, bound
 
 _P = part(5)
 SH = _P % 100            # shape index
@@ -12,7 +12,7 @@ NKINDS = 11
 
 
 def _tree(nsvar: bool, val: Optional[str], vnode: int):
-    Node.store.clear()
+    fresh()
     root = build(SHAPES[SH], "a")
     ns = nodes(root)
     if nsvar:
@@ -109,4 +109,41 @@ def h_edit_after_copy(nsvar: bool, val: Optional[str], node: int, edit_copy: boo
     r = snap_links(other)
     if r:
         return "parent links of the untouched tree: " + r
+    return ""
+
+
+def h_copy_chain(kind: int, node: int, val: Optional[str], bare: bool, which: int) -> str:
+    """
+    pre: 0 <= kind <= 3 and 0 <= node < 5 and 0 <= which <= 2
+    pre: val is None or len(val) <= MAXLEN
+    post: _ == ""
+    """
+    # copy -> copy of the copy -> copy of an unrelated tree; then one edit on one of them. Nodes may have EMPTY attribute / extras /
+    # namespace containers (bare=True): containers that start out empty must not be shared between copies either.
+    fresh()
+    shape = SHAPES[SH]
+    root = build(shape, "a", rich=not bare)
+    other = build(SHAPES[1], "o", rich=not bare)
+    c1 = root.copy()
+    c2 = c1.copy()
+    c3 = other.copy()
+    trees = [root, c1, c2, other, c3]
+    victim = (c2, c1, c3)[which]
+    n = nodes(victim)[node % len(nodes(victim))]
+    before = [snap(t) for t in trees]
+    v = val if val is not None else "v"
+    if kind == 0:
+        n.add_attribute("added", v)
+    elif kind == 1:
+        n.add_extras("x:added", v)
+    elif kind == 2:
+        n.add_namespace("z", v if v else "u")
+    else:
+        n.add_child(Node("added", id="added"))
+    for i, t in enumerate(trees):
+        if t is victim:
+            continue
+        if snap(t) != before[i]:
+            return "edit kind %d on a node of tree %d is visible in tree %d (0 original, 1 copy, 2 copy of the copy, 3 unrelated, 4 its copy)" % (
+                kind, trees.index(victim), i)
     return ""
